@@ -1,4 +1,5 @@
 import GasolVerif.Concrete
+import GasolVerif.Show
 open GasolVerif
 
 def parseWords? (s : String) : Option (List Word) :=
@@ -16,6 +17,19 @@ def handle (line : String) : String :=
     match seed.toNat?, parseWords? stack, parseBlock? b₁, parseBlock? b₂ with
     | some sd, some st, some B, some B' => Concrete.compare sd st B B'
     | _, _, _, _ => "error:parse"
+  | ["EQUIV", b₁, b₂] =>
+    match parseBlock? b₁, parseBlock? b₂ with
+    | some B, some B' => if equiv norm3 B B' then "equiv" else "unknown"
+    | _, _ => "error:parse"
+  | ["SYM", b] =>
+    match parseBlock? b with
+    | some B =>
+      let segs := (B.splitBy fun x y => !x.isExt && !y.isExt)
+      " ## ".intercalate (segs.map fun sg =>
+        match symExec sg .init with
+        | some S => S.toStr norm3
+        | none => "ext:" ++ " ".intercalate (sg.map Instr.toToken))
+    | none => "error:parse"
   | _ => "error:unknown-request"
 
 partial def loop (h : IO.FS.Stream) (out : IO.FS.Stream) : IO Unit := do
